@@ -419,6 +419,17 @@ def check_total(inp):
         # scores" is the stated precondition of keep_score; refusing such a pair is inside it (false alarm seen in a
         # thorough run, on a stretched input)
         return None
+    if isinstance(exc, IndexError) and fl['keep_pitch']:
+        # keep_pitch starts with to_absolute_note: a relative note that leaves the +-10 octave window of the pitch table
+        # raises IndexError there, exactly as rendering the source does (C09's stated error branch) - nothing is claimed
+        # about a source that cannot be rendered (false alarm seen in a thorough run: cu8.oabs(1) chains)
+        try:
+            sp = sound.spec_sound(src)
+            in_window = all(-108 <= p <= 107 for evs in sp.values() for p, _o, _d, _v in evs)
+        except IndexError:
+            in_window = False
+        if not in_window:
+            return None
     if exc is not None:
         return {'observed': f'{type(exc).__name__}: {exc}', 'expected': 'a score'}
     from musiclang import Score
